@@ -637,7 +637,7 @@ fn read_sam_stream<R: BufRead>(mut r: sam::io::Reader<R>, tx: &mut Tx, vpos: &dy
 }
 
 /// Lazy SAM records: every accessor (C15 sweep only).
-pub fn sweep_sam_lazy(data: &[u8]) {
+pub fn sweep_sam_lazy(data: &[u8], exclude_known_hangs: bool) {
     let mut r = sam::io::Reader::new(data);
     let Ok(header) = r.read_header() else { return };
     let mut rec = sam::Record::default();
@@ -648,7 +648,14 @@ pub fn sweep_sam_lazy(data: &[u8]) {
         }
         n += 1;
         sweep_alignment_record(&header, &rec);
-        dbg_touch(&rec);
+        // known finding (hang@sam): the lazy CIGAR iterator yields `Err` forever on a malformed
+        // CIGAR, so `Debug` of the record (DebugList::entries over it) never returns
+        let cigar_errs = rec.cigar().iter().take(100_000).any(|op| op.is_err());
+        if cigar_errs && exclude_known_hangs {
+            super::KNOWN_HANGS_EXCLUDED.fetch_add(1, std::sync::atomic::Ordering::Relaxed);
+        } else {
+            dbg_touch(&rec);
+        }
         let _ = sam::alignment::RecordBuf::try_from_alignment_record(&header, &rec);
     }
 }
@@ -695,7 +702,7 @@ impl Driver for SamDriver {
         } else {
             let (src, st) = open_bufread(data, d);
             if opts.sweep {
-                sweep_sam_lazy(data);
+                sweep_sam_lazy(data, opts.exclude_known_hangs);
             }
             let r = sam::io::Reader::new(src);
             read_sam_stream(r, &mut tx, &|_| None);
